@@ -1,88 +1,40 @@
 /-
 `xmodel`: line-protocol driver over the executable model.  One request per line on stdin, one
-response per line on stdout.  `<engine> <op> <args…>`; unknown requests answer `bad-op`
-(never a default value).
+response per line on stdout.  `<engine> <op> <args…>` (split on single spaces; an engine that needs
+structured payloads re-joins its arguments).  Unknown requests answer `bad-op` (never a default value).
 -/
-import XrayModel
-open XrayModel
-
-def showLB : LB → String
-  | .short v => s!"S {v}"
-  | .long v => s!"L {v}"
-
-def showR : LB.R → String
-  | .ok v => showLB v
-  | .error e => e
-
-def showXR : XR → String
-  | .int v => showLB v
-  | .bool b => toString b
-  | .ints vs => "[" ++ String.intercalate "," (vs.map showLB) ++ "]"
-  | .err m => "err " ++ m
-  | .panic w => w
-
-def showOrd : Ordering → String
-  | .lt => "Less" | .eq => "Equal" | .gt => "Greater"
-
-def showOpt : Option Int → String
-  | some v => s!"Some({v})" | none => "None"
-
-def intEngine (f : String) (args : List String) : String :=
-  match args.mapM String.toInt? with
-  | none => "bad-op"
-  | some vs =>
-    let lb := vs.map LB.ofInt
-    match f, lb with
-    | "id", [a] => showLB a
-    | "add", [a, b] => showR (LB.add a b)
-    | "add_ref", [a, b] => showR (LB.add a b)
-    | "add_assign", [a, b] => showR (LB.addAssign a b)
-    | "sub", [a, b] => showR (LB.sub a b)
-    | "mul", [a, b] => showR (LB.mul a b)
-    | "mul_assign", [a, b] => showR (LB.mulAssign a b)
-    | "neg", [a] => showR (LB.neg a)
-    | "rem", [a, b] => showR (LB.rem a b)
-    | "rem_ref", [a, b] => showR (LB.rem a b)
-    | "div", [a, b] => showR (LB.div a b)
-    | "div_floor", [a, b] => showR (LB.divFloor a b)
-    | "div_ceil", [a, b] => showR (LB.divCeil a b)
-    | "pow", [a, b] => showR (LB.pow a b)
-    | "abs", [a] => showR (LB.abs a)
-    | "signum", [a] => showLB (LB.signum a)
-    | "is_zero", [a] => toString (LB.isZero a)
-    | "is_one", [a] => toString (LB.isOne a)
-    | "is_positive", [a] => toString (LB.isPositive a)
-    | "is_negative", [a] => toString (LB.isNegative a)
-    | "eq", [a, b] => toString (LB.beq a b)
-    | "cmp", [a, b] => showOrd (LB.cmp a b)
-    | "to_u64", [a] => showOpt (LB.toU64 a)
-    | "to_i64", [a] => showOpt (LB.toI64 a)
-    | "first_u64_digit", [a] => showLB (LB.firstU64Digit a)
-    | "bits", [a] => toString (LB.bits a)
-    -- builtins (language level)
-    | "b.add", [a, b] => showXR (IntB.add a b)
-    | "b.sub", [a, b] => showXR (IntB.sub a b)
-    | "b.mul", [a, b] => showXR (IntB.mul a b)
-    | "b.neg", [a] => showXR (IntB.neg a)
-    | "b.mod", [a, b] => showXR (IntB.mod a b)
-    | "b.div_floor", [a, b] => showXR (IntB.divFloor a b)
-    | "b.div_ceil", [a, b] => showXR (IntB.divCeil a b)
-    | "b.pow", [a, b] => showXR (IntB.pow a b)
-    | "b.lt", [a, b] => showXR (IntB.lt a b)
-    | "b.gt", [a, b] => showXR (IntB.gt a b)
-    | "b.le", [a, b] => showXR (IntB.le a b)
-    | "b.ge", [a, b] => showXR (IntB.ge a b)
-    | "b.eq", [a, b] => showXR (IntB.eq a b)
-    | "b.ne", [a, b] => showXR (IntB.ne a b)
-    | "b.cmp", [a, b] => showXR (IntB.cmp a b)
-    | "b.hash", [a] => showXR (IntB.hash a)
-    | "b.binom", [a, b] => showXR (IntB.binom a b)
-    | "b.digits", [a, b] => showXR (IntB.digits a b)
-    | _, _ => "bad-op"
+import Driver.Int
+import Driver.Map
+import Driver.Seq
+import Driver.Gen
+import Driver.Str
+import Driver.Lex
+import Driver.Ord
+import Driver.Ty
+import Driver.Ovl
+import Driver.Alloc
+import Driver.Perm
+import Driver.Fl
+import Driver.Conv
+import Driver.Core
+open XrayDriver
 
 def step (line : String) : String :=
-  match line.trimAscii.toString.splitOn " " with
+  match (line.dropEndWhile (fun c => c == '\n' || c == '\r')).toString.splitOn " " with
   | "int" :: f :: args => intEngine f args
+  | "map" :: f :: args => mapEngine f args
+  | "seq" :: f :: args => seqEngine f args
+  | "gen" :: f :: args => genEngine f args
+  | "str" :: f :: args => strEngine f args
+  | "lex" :: f :: args => lexEngine f args
+  | "ord" :: f :: args => ordEngine f args
+  | "ty" :: f :: args => tyEngine f args
+  | "ovl" :: f :: args => ovlEngine f args
+  | "alloc" :: f :: args => allocEngine f args
+  | "perm" :: f :: args => permEngine f args
+  | "fl" :: f :: args => flEngine f args
+  | "conv" :: f :: args => convEngine f args
+  | "core" :: f :: args => coreEngine f args
   | _ => "bad-op"
 
 partial def loop (h : IO.FS.Stream) (out : IO.FS.Stream) : IO Unit := do
